@@ -205,14 +205,17 @@ invgen.ARG_DOMAIN["spin(uint256)"] = list(range(0, 7))
 invgen.ARG_DOMAIN["spind(uint256)"] = list(range(0, 7))
 
 
-def check_invariant(acc, fns, loop, depth, order=(1, 2, 3, 4, 5)):
+def check_invariant(acc, fns, loop, depth, order=(1, 2, 3, 4, 5), width=0):
     # `order`: the invariant test that runs first computes the frontier (and is the one whose warning is easiest to lose)
     desc = {"targets": [fns], "invariants": [[0, "s", "ne", k] for k in order], "filters": None}
     P = invgen.Project(desc)
     sigs = P.invariant_sigs()
-    name = f"inv:{fns}:loop={loop}:depth={depth}:first={order[0]}"
-    case = {"kind": "inv", "fns": fns, "loop": loop, "depth": depth, "order": list(order)}
-    rr = e2e.run_contract(P.test, funsigs=sigs, options={"invariant_depth": depth, "loop": loop, "solver_timeout_assertion": "10s"}, others=P.targets)
+    name = f"inv:{fns}:loop={loop}:depth={depth}:first={order[0]}" + (f":width={width}" if width else "")
+    case = {"kind": "inv", "fns": fns, "loop": loop, "depth": depth, "order": list(order), "width": width}
+    opts = {"invariant_depth": depth, "loop": loop, "solver_timeout_assertion": "10s"}
+    if width:
+        opts["width"] = width  # the path limit of one test must not silently shrink the frontier the next test starts from
+    rr = e2e.run_contract(P.test, funsigs=sigs, options=opts, others=P.targets)
     acc.count("contracts")
     if rr.exception is not None or len(rr.results) != len(sigs):
         acc.violation(f"no-results:{name}", f"{name}: no results {rr.exception!r}", case)
@@ -237,10 +240,41 @@ def check_invariant(acc, fns, loop, depth, order=(1, 2, 3, 4, 5)):
         bd = ref["broken"].get(k)
         broken = bd is not None and bd <= depth
         # the warning must be given for *this* test (each invariant test relies on the same cut frontier)
-        loop_warned = any("loop unrolling bound" in m and sig.split("(")[0] in m for m in msgs)
+        loop_warned = any(("loop unrolling bound" in m or "--width" in m) and sig.split("(")[0] in m for m in msgs)
         acc.outcome(("inv", r.exitcode, broken, loop_warned))
         if broken and r.exitcode == 0 and not loop_warned and not (r.num_bounded_loops or 0):
             acc.violation(f"silent-pass:{name}", f"{name}: invariant s != {desc['invariants'][k][3]} is broken by {bd} call(s) (reference) but halmos reports a clean PASS: the loop cut inside the target call is not reported (bounded loops {r.num_bounded_loops})", case)
+            return
+    acc.state(name)
+
+
+def check_inv_width(acc, width, first):
+    """--width cuts one invariant test while the frontier is being computed: the next test must not silently start from the truncated
+    frontier.  Targets set(uint8), tick(); invariant A = `s != 200` with two extra branches on s (several paths per symbolic state, hits
+    the limit), invariant B = `t <= 0` (broken only by tick(), whose state is computed after set's)."""
+    A, B = [0, "s", "nebr", 200], [0, "t", "le", 0]
+    desc = {"targets": [["set", "tick"]], "invariants": [A, B] if first == "A" else [B, A], "filters": None}
+    P = invgen.Project(desc)
+    sigs = P.invariant_sigs()
+    name = f"inv-width:{width}:first={first}"
+    case = {"kind": "invwidth", "width": width, "first": first}
+    rr = e2e.run_contract(P.test, funsigs=sigs, options={"invariant_depth": 1, "width": width, "solver_timeout_assertion": "10s"}, others=P.targets)
+    acc.count("contracts")
+    if rr.exception is not None or len(rr.results) != len(sigs):
+        acc.violation(f"no-results:{name}", f"{name}: no results {rr.exception!r}", case)
+        return
+    ref = invgen.reference_bfs(P, 1)
+    msgs = [m for (lvl, m) in rr.logs if lvl in ("WARNING", "ERROR")]
+    by = rr.by_name()
+    for k, sig in enumerate(sigs):
+        r = by[sig]
+        acc.count("tests")
+        broken = ref["broken"].get(k) is not None
+        warned_here = any("--width" in m and sig.split("(")[0] in m for m in msgs)
+        acc.outcome(("inv-width", r.exitcode, broken, warned_here))
+        if broken and r.exitcode == 0 and not warned_here:
+            acc.violation(f"silent-pass:{name}", f"{name}: {sig} ({desc['invariants'][k]}) is broken by one call (reference) but is a clean PASS: it started from the frontier that "
+                          f"the --width {width} cut of the other test left incomplete (frontier sizes { {d: len(v) for d, v in rr.ctx.frontier_states.items()} })", case)
             return
     acc.state(name)
 
@@ -352,6 +386,13 @@ def shards(tier, seed):
         out.append({"kind": "regular", "names": ["unsupported", "while_sym_k1"], "config": cfg, "solver": "garbage"})
     for cfg in ({"loop": 2, "depth": 40}, {"loop": 2}, {"loop": 1, "width": 1}):
         out.append({"kind": "same", "config": cfg})
+    for fns in (["inc", "set"], ["set", "step"], ["inc"]):
+        for width in (1, 2, 3):
+            for order in ((1, 2, 3, 4, 5), (5, 4, 3, 2, 1)):
+                out.append({"kind": "inv", "fns": fns, "loop": 2, "depth": 2, "width": width, "order": list(order)})
+    for width in (2, 3, 4):
+        for first in ("A", "B"):
+            out.append({"kind": "invwidth", "width": width, "first": first})
     for fns in (["unsup"], ["unsup", "inc"]):
         for depth in (1, 2):
             out.append({"kind": "inv", "fns": fns, "loop": 2, "depth": depth})
@@ -381,9 +422,11 @@ def run_case(acc, s):
     elif k == "same":
         check_same_signature(acc, s["config"])
     elif k == "inv":
-        check_invariant(acc, s["fns"], s["loop"], s["depth"], tuple(s.get("order", (1, 2, 3, 4, 5))))
+        check_invariant(acc, s["fns"], s["loop"], s["depth"], tuple(s.get("order", (1, 2, 3, 4, 5))), s.get("width", 0))
     elif k == "setup":
         check_setup(acc, s["N"], s["loop"])
+    elif k == "invwidth":
+        check_inv_width(acc, s["width"], s["first"])
     elif k == "nested":
         check_nested_stuck(acc, s["where"], s["depth"], s["call"])
     else:
